@@ -149,6 +149,7 @@ func checkDMRoundTrip(t TB, c DMCase) *ref.DMResult {
 		failf(t, P, K, c, "%v", merr)
 	}
 	res, derr := ref.DecodeDataMatrix(m)
+	colourVariant(t, P, K, c, EncSpec{Fam: "datamatrix", Content: c.Content}, m)
 	if derr != nil {
 		failf(t, P, K, c, "reference reader (content of %d codewords): %v", need, derr)
 	}
@@ -253,6 +254,25 @@ func TestC02Sweep(t *testing.T) {
 			if len(content) <= 10 {
 				st.Sample("sweep", c)
 			}
+		})
+	})
+	// every byte value in five surroundings (between letters, between digits, alone, after one digit, doubled)
+	var bytesweep []DMCase
+	for b := 0; b < 256; b++ {
+		x := string([]byte{byte(b)})
+		for _, c := range []string{"AB" + x + "CD", "12" + x + "34", x, "7" + x, x + x, x + "5" + x} {
+			bytesweep = append(bytesweep, DMCase{Content: BStr(c)})
+		}
+	}
+	parallelFor(len(bytesweep), 16, func(i int) {
+		if ct.Failed() {
+			return
+		}
+		ct.guard(func() {
+			res := checkDMRoundTrip(ct, bytesweep[i])
+			st.Eval()
+			c02Account(st, bytesweep[i], res)
+			st.Class("every byte value in six surroundings")
 		})
 	})
 	if ct.Failed() {
